@@ -444,6 +444,9 @@ type IdxConf struct {
 	Unsafe    bool   `json:"unsafe"`    // unsafe batches
 	Merge     string `json:"merge"`     // "default" | "none" | "pairs"
 	Retention int    `json:"retention"` // snapshots kept by the deletion policy (0 = default 1)
+	// NapFiles > 0 sets PersisterNapUnderNumFiles (default 1000): with that many files on disk the
+	// persister pauses until the merger has caught up
+	NapFiles int `json:"nap_files,omitempty"`
 }
 
 // MergeOptions maps the merge policy name to planner options.
@@ -465,6 +468,9 @@ func (c IdxConf) apply(ic index.Config) index.Config {
 		ic.MergePlanOptions = o
 	case "nomem":
 		ic.MinSegmentsForInMemoryMerge = 1 << 30
+	}
+	if c.NapFiles > 0 {
+		ic.PersisterNapUnderNumFiles = c.NapFiles
 	}
 	if c.Retention > 1 {
 		n := c.Retention
